@@ -16,15 +16,24 @@ func init() {
 		Runs: []runSpec{
 			{
 				Name: "helper-kernel", Pkg: pkgHelper, Func: "VH_C01Kernel",
-				Quick: []int{3, 2}, Thorough: []int{4, 3},
+				Quick: []int{3, 2}, Thorough: []int{4, 2},
 				Bounds: func(a []int) string {
 					return fmt.Sprintf("replicas r in [0,%d] (symbolic), up to %d delete slots each an arbitrary int32 (duplicates, negatives, extremes), plus nil/absent/12 malformed annotation values (syntax errors and well-formed lists with an element that is not an int32); every iteration order of the slot set (maps of 2..3 entries) inside GetDeleteSlots, GetMaxReplicaCountAndDeleteSlots and sets.UnsortedList", a[0], a[1])
 				},
 				Asserts: []string{"pod ordinals equal the desired set", "exactly r ordinals", "max ordinal agrees", "min ordinal agrees",
 					"effective slots are the slots inside the range", "desired set is the range minus the effective slots", "input slot set not mutated"},
 			},
+			{
+				Name: "helper-kernel-three-slots", Pkg: pkgHelper, Func: "VH_C01Kernel", NoMapOrder: true,
+				Quick: []int{3, 3}, Thorough: []int{4, 3},
+				Bounds: func(a []int) string {
+					return fmt.Sprintf("replicas r in [0,%d] (symbolic), up to %d delete slots each an arbitrary int32, plus nil/absent/malformed values; maps visited in insertion order", a[0], a[1])
+				},
+				Asserts: []string{"pod ordinals equal the desired set", "exactly r ordinals", "max ordinal agrees", "min ordinal agrees"},
+			},
 		},
 		Assumptions: []string{
+			"map iteration orders are explored in the 'helper-kernel' run only (two slots); the three-slot run visits maps in insertion order",
 			"encoding/json round trip of []int32 is lossless (std library contract); malformed and literal annotation values are decoded by the real encoding/json",
 		},
 		MapOrder:     []string{"~UnsortedList", pkgHelper + ".GetMaxReplicaCountAndDeleteSlots", pkgHelper + ".GetDeleteSlots"},
